@@ -144,7 +144,7 @@ class C06(Prop):
         "written_file", "open_written", "open_rejects", "findName_stored", "findName_alias", "findName_absent", "findNumber_sorted",
         "fileInfo_spec", "internal_eq_external", "auto_switch_trigger", "external_is_permanent", "history_write", "history_index_correct", "history_alias", "history_enumeration", "findSubseq_spec", "findSubseq_erange", "exCross_wf",
         "findSubseq_alias", "findSubseq_absent", "open_any_bytes", "bsearch_any_array", "findName_any_index", "findName_no_fault",
-        "findNumber_any_index", "fileInfo_any_index", "findSubseq_any_index", "written_index_no_alias_chain", "truncated_index_never_wrong", "truncated_index_same_answers", "addFile_never_checks_names",
+        "findNumber_any_index", "fileInfo_any_index", "findSubseq_any_index", "written_index_no_alias_chain", "truncated_index_never_wrong", "truncated_index_same_answers", "write_twice", "addFile_never_checks_names",
         "cross_class_duplicate_rejected")]
     claimed = True
     technique = ("Lean 4 proof about an executable model of esl_ssi.c (writer, on-disk layout, binary search, alias indirection) "
@@ -218,7 +218,7 @@ class C06(Prop):
         if ext_point is not None and ext_point >= len(merged):
             ops.append("external")
         ops.append("isext")
-        ops.append("write")
+        ops.append("write twice=1" if self._twice_rng is not None and self._twice_rng.random() < 0.08 else "write")
         return ops
 
     def _probes(self, rng, keys, aliases, limit):
@@ -721,6 +721,13 @@ class C06(Prop):
         c.append({"name": "dup-primary", "sticky": 1, "ops": [
             "new", "addfile name=%s fmt=1" % hx(b"f"), "addkey k=%s fh=0 r=1 d=2 L=3" % hx(b"k1"), "addkey k=%s fh=0 r=4 d=5 L=6" % hx(b"k2"),
             "addkey k=%s fh=0 r=7 d=8 L=9" % hx(b"k1"), "write", "open"]})
+        c.append({"name": "write-twice", "sticky": 1, "ops": [
+            "new", "addfile name=%s fmt=1" % hx(b"f"), "addkey k=%s fh=0 r=1 d=2 L=3" % hx(b"k1"), "addalias a=%s k=%s" % (hx(b"al"), hx(b"k1")),
+            "write twice=1", "open", "find k=%s" % hx(b"k1"), "find k=%s" % hx(b"al"), "close",
+            "new", "addfile name=%s fmt=1" % hx(b"f"), "external", "addkey k=%s fh=0 r=1 d=2 L=3" % hx(b"k1"), "addkey k=%s fh=0 r=1 d=2 L=3" % hx(b"k2"),
+            "write twice=1", "open", "find k=%s" % hx(b"k2"), "close",
+            "new", "addfile name=%s fmt=1" % hx(b"f"), "addkey k=%s fh=0 r=1 d=2 L=3" % hx(b"k1"), "addkey k=%s fh=0 r=1 d=2 L=3" % hx(b"k1"),
+            "write twice=1", "open"]})
         c.append({"name": "dup-alias-external", "sticky": 1, "ops": [
             "new", "addfile name=%s fmt=1" % hx(b"f"), "addkey k=%s fh=0 r=1 d=2 L=3" % hx(b"k1"), "external", "addkey k=%s fh=0 r=4 d=5 L=6" % hx(b"k2"),
             "addalias a=%s k=%s" % (hx(b"al"), hx(b"k1")), "addalias a=%s k=%s" % (hx(b"al"), hx(b"k2")), "write", "open"]})
@@ -769,9 +776,12 @@ class C06(Prop):
         return c
 
     _exact_k = 0
+    _twice_rng = None
 
     def cases(self, ctx):
         rng = ctx.rng
+        import random as _random
+        self._twice_rng = _random.Random(rng.random())       # own stream: which builds call Write twice
         self._exact_k = 0
         quick = ctx.tier == "quick"
         out = []
@@ -917,6 +927,8 @@ class C06(Prop):
                 dup = len(set(pks + als)) != len(pks) + len(als)      # ALL keys distinct: an alias equal to a primary key is a duplicate too
                 if f.get("tmp") != "0" and not pretmp:
                     return fail("tmp files of the external sort left behind after Write+Close")
+                if a.get("twice") == "1" and f.get("again") != "einval":
+                    return fail("a second esl_newssi_Write on the same ESL_NEWSSI answered %r (documented: eslEINVAL, nothing touched)" % f.get("again"))
                 if a.get("nosort") == "1" and sim["ext"] and files:
                     if st != "esys" or f.get("file") != "0":
                         return fail("Write with sort(1) unavailable answered %r (expected esys and no index file)" % l[:80])
